@@ -14,7 +14,7 @@
      op 6  built-in distributions without a quantile method and without an exact model here
            (TDist, UDist, KDE), relational (oracle instantiation: F := the implementation's own CDF,
            reported by the harness at the points the statement needs):
-           7 6 kind par own  bl bh cbl cbh cpl cph  ny { y st x xm c0 cm xp cp rst ref }*  nr { g m }*
+           7 6 kind par own hst  bl bh cbl cbh cpl cph  ny { y st x xm c0 cm xp cp rst ref }*  nr { g m }*
            par: the first parameter (TDist: V);  own: bit 0 the distribution has its own InvCDF method, bit 1 its own Rand method;
            bl bh = Bounds(), cbl = CDF(bl), cbh = CDF(bh), cpl = CDF(-2^1023), cph = CDF(2^1023) (the last
            finite probes of the bracket expansion), x = InvCDF(y), xm = x - tol, c0 = CDF(x), cm = CDF(xm);
@@ -27,8 +27,13 @@
            exponential tail (mixed) 10 harness two-sided power law (continuous, heavy tails)
      op 8  Kolmogorov-Smirnov distance computed HERE: the n draws of stats.Rand with a seeded math/rand
            source, sorted by the harness, against the exact pw_cdf:   7 8  nk { x l v }*  bl bh  st  n { draw }*
-     op 7  Rand on a relational-kind distribution with a scripted source:
-           7 7 kind par own  bl bh cbl cbh cpl cph  nsrc { int63 }*  st consumed y draw  { y ist x xm c0 cm rst ref }
+           hst: 0, or 2 / 3 when Bounds / CDF / the constructors panicked (a mismatch; the line ends there)
+     op 9  the distribution has its OWN Rand method: determinism, two equally seeded sources:
+           7 9 hdr  n { st1 draw1 st2 draw2 }*
+     op 10 Kolmogorov-Smirnov distance of the sorted draws of stats.Rand(d) to d's own cdf (reported by the
+           harness just below and just above each draw), computed here:   7 10 hdr  st  n { v cm cp }*
+     op 7  Rand on a relational-kind distribution with a scripted source (no Rand method of its own):
+           7 7 kind par own hst  bl bh cbl cbh cpl cph  nsrc { int63 }*  st consumed y draw  { y ist x xm c0 cm rst ref }
    All of x l v bl bh y obs ... are float64 bit patterns; st: 0 = returned, 2 = panicked.
    knot (x, l, v): break point, left limit, value (see Model/InvCDF.v). *)
 From MM Require Import Base.Num Model.Choose Model.Binom Model.Hyperg Model.InvCDF Check.C06.
@@ -317,7 +322,7 @@ Definition rel_slack_hi (kind : Z) (par : xreal) : Q :=
 (* non-decreasing in y: exact for the generic algorithm, 1e-9 relative for an own method *)
 Definition rel_mono_tol (own : Z) : Q := if Z.land own 1 =? 0 then 0 else e9.
 
-Record relhdr := { rh_kind : Z; rh_par : xreal; rh_own : Z; rh_bl : xreal; rh_bh : xreal; rh_cbl : xreal; rh_cbh : xreal;
+Record relhdr := { rh_kind : Z; rh_par : xreal; rh_own : Z; rh_hst : Z; rh_bl : xreal; rh_bh : xreal; rh_cbl : xreal; rh_cbh : xreal;
                    rh_cpl : xreal; rh_cph : xreal }.
 Record relitem := { ri_y : xreal; ri_st : Z; ri_xb : Z; ri_xm : xreal; ri_c0 : xreal; ri_cm : xreal;
                     ri_xp : xreal; ri_cp : xreal; ri_rst : Z; ri_refb : Z }.
@@ -372,8 +377,8 @@ Definition p_rel : parser relitem :=
   do y <- pX; do st <- pZ; do x <- pZ; do xm <- pX; do c0 <- pX; do cm <- pX; do xp <- pX; do cp <- pX; do rst <- pZ; do ref <- pZ;
   pret {| ri_y := y; ri_st := st; ri_xb := x; ri_xm := xm; ri_c0 := c0; ri_cm := cm; ri_xp := xp; ri_cp := cp; ri_rst := rst; ri_refb := ref |}.
 Definition p_relhdr : parser relhdr :=
-  do kind <- pZ; do par <- pX; do own <- pZ; do bl <- pX; do bh <- pX; do cbl <- pX; do cbh <- pX; do cpl <- pX; do cph <- pX;
-  pret {| rh_kind := kind; rh_par := par; rh_own := own; rh_bl := bl; rh_bh := bh; rh_cbl := cbl; rh_cbh := cbh; rh_cpl := cpl; rh_cph := cph |}.
+  do kind <- pZ; do par <- pX; do own <- pZ; do hst <- pZ; do bl <- pX; do bh <- pX; do cbl <- pX; do cbh <- pX; do cpl <- pX; do cph <- pX;
+  pret {| rh_kind := kind; rh_par := par; rh_own := own; rh_hst := hst; rh_bl := bl; rh_bh := bh; rh_cbl := cbl; rh_cbh := cbh; rh_cpl := cpl; rh_cph := cph |}.
 Fixpoint run_rel_items (h : relhdr) (items : list relitem) (idx tag : Z) : Z * option (Z * list Z) :=
   match items with
   | [] => (tag, None)
@@ -404,6 +409,39 @@ Fixpoint ks_scan (pw : pwf) (n : Q) (i : Z) (prev : option Q) (xs : list Q) (bes
       let up := (inject_Z (i + 1) / n - pw_cdf pw (v + tol))%Q in
       let dn := (pw_cdf pw (if Qeq_bool v 0 then - ks_tiny else v - tol) - inject_Z i / n)%Q in
       ks_scan pw n (i + 1) (Some v) r (Qmaxb best (Qmaxb up dn))
+  end.
+
+(* the same distance against the distribution's OWN cdf, reported by the harness just below (cm) and just
+   above (cp) every sorted draw v: D = max_i max ((i+1)/n - cp_i, cm_i - i/n).  None: not sorted, or a value
+   that is not a finite number *)
+Definition p_ks3 : parser (xreal * xreal * xreal) := do v <- pX; do cm <- pX; do cp <- pX; pret (v, cm, cp).
+Fixpoint ks_scan3 (n : Q) (i : Z) (prev : option Q) (xs : list (xreal * xreal * xreal)) (best : Q) : option Q :=
+  match xs with
+  | [] => Some best
+  | (XFin v, XFin cm, XFin cp) :: r =>
+      if match prev with Some p => Qltb v p | None => false end then None else
+      let up := (inject_Z (i + 1) / n - cp)%Q in
+      let dn := (cm - inject_Z i / n)%Q in
+      ks_scan3 n (i + 1) (Some v) r (Qmaxb best (Qmaxb up dn))
+  | _ => None
+  end.
+
+(* determinism of a distribution's own Rand method: two equally seeded sources, the same draws *)
+Definition p_det : parser (Z * Z * Z * Z) := do s1 <- pZ; do d1 <- pZ; do s2 <- pZ; do d2 <- pZ; pret (s1, d1, s2, d2).
+Fixpoint run_det (items : list (Z * Z * Z * Z)) (idx : Z) : option (Z * list Z) :=
+  match items with
+  | [] => None
+  | (s1, d1, s2, d2) :: rest =>
+      if (s1 =? 0) && (s2 =? 0) && (d1 =? d2) then run_det rest (idx + 1) else Some (idx, [15; s1; d1; s2; d2])
+  end.
+
+(* the header of the relational ops; a header status other than 0 (the distribution's Bounds / CDF or the
+   constructors stats.InvCDF / stats.Rand panicked) is a mismatch and ends the line *)
+Inductive rhres := RHBad (v : list Z) | RHOk (h : relhdr) (rest : list Z).
+Definition rel_header (l : list Z) : rhres :=
+  match p_relhdr l with
+  | None => RHBad (verdict V_MALFORMED 0 (-1) [])
+  | Some (h, rest) => if rh_hst h =? 0 then RHOk h rest else RHBad (verdict V_MISMATCH T_REL 0 [14; rh_hst h])
   end.
 
 Definition valid_pw (pw : pwf) : bool := pw_wfb pw.
@@ -476,8 +514,9 @@ Definition check_C07 (line : list Z) : list Z :=
           end
       | None => verdict V_MALFORMED 0 (-1) []
       end
-  | 7 :: 6 :: rest =>
-      match (do h <- p_relhdr; do items <- plist p_rel; do pairs <- plist p_pair; pend (h, items, pairs)) rest with
+  | 7 :: 6 :: rest0 =>
+      match rel_header rest0 with RHBad v => v | RHOk h rest =>
+      match (do items <- plist p_rel; do pairs <- plist p_pair; pend (h, items, pairs)) rest with
       | Some ((h, items, pairs), _) =>
           match with_mono (rel_mono_tol (rh_own h)) (rel_plain items) (run_rel_items h items 0 0) with
           | (tag, None) =>
@@ -488,9 +527,10 @@ Definition check_C07 (line : list Z) : list Z :=
           | r => finish r
           end
       | None => verdict V_MALFORMED 0 (-1) []
-      end
-  | 7 :: 7 :: rest =>
-      match (do h <- p_relhdr; do src <- plist pZ; do st <- pZ; do consumed <- pZ; do y <- pX; do draw <- pZ; do it <- p_rel;
+      end end
+  | 7 :: 7 :: rest0 =>
+      match rel_header rest0 with RHBad v => v | RHOk h rest =>
+      match (do src <- plist pZ; do st <- pZ; do consumed <- pZ; do y <- pX; do draw <- pZ; do it <- p_rel;
              pend (h, src, (st, consumed, y), draw, it)) rest with
       | Some ((h, src, (st, consumed, y), draw, it), _) =>
           if existsb (fun v => (v <? 0) || (2 ^ 63 <=? v) || negb (Z.land v 1023 =? 0)) src || negb (Z.land (rh_own h) 2 =? 0)
@@ -514,7 +554,34 @@ Definition check_C07 (line : list Z) : list Z :=
                 end
           end
       | None => verdict V_MALFORMED 0 (-1) []
-      end
+      end end
+  | 7 :: 9 :: rest0 =>
+      match rel_header rest0 with RHBad v => v | RHOk h rest =>
+      match (do items <- plist p_det; pend items) rest with
+      | Some (items, _) =>
+          if Z.land (rh_own h) 2 =? 0 then verdict V_MALFORMED 0 (-1) [] else
+          match run_det items 0 with
+          | Some (idx, dg) => verdict V_MISMATCH (Z.lor T_RAND T_DISPATCH) idx dg
+          | None => verdict V_OK (match items with [] => 0 | _ => Z.lor T_RAND T_DISPATCH end) (-1) []
+          end
+      | None => verdict V_MALFORMED 0 (-1) []
+      end end
+  | 7 :: 10 :: rest0 =>
+      match rel_header rest0 with RHBad v => v | RHOk h rest =>
+      match (do st <- pZ; do items <- plist p_ks3; pend (st, items)) rest with
+      | Some ((st, items), _) =>
+          let n := Z.of_nat (length items) in
+          let tag := Z.lor (Z.lor T_RAND T_KS) (Z.lor T_REL (if Z.land (rh_own h) 2 =? 0 then 0 else T_DISPATCH)) in
+          if n <? 1 then verdict V_MALFORMED 0 (-1) [] else
+          if negb (st =? 0) then verdict V_MISMATCH tag 0 [st] else
+          match ks_scan3 (inject_Z n) 0 None items 0 with
+          | None => verdict V_MISMATCH tag 2 []      (* a draw or a cdf value that is not a finite number, or not sorted *)
+          | Some d => if Qle_bool (d * d * inject_Z (2 * n)) ks_bound
+                      then verdict V_OK tag (-1) []
+                      else verdict V_MISMATCH tag 1 (qdiag d)
+          end
+      | None => verdict V_MALFORMED 0 (-1) []
+      end end
   | 7 :: 8 :: rest =>
       match (do pw <- plist p_knot; do bl <- pQ; do bh <- pQ; do st <- pZ; do xs <- plist pQ; pend (pw, st, xs)) rest with
       | Some ((pw, st, xs), _) =>
